@@ -118,6 +118,15 @@ package advanced
 //@   loop 1
 //@     invariant !closed(job.cancelCh) && !closed(job.runCh) && calls(finaliseJob) == 0 && calls(monitorJobCancelled) == 0 && nolocks()
 //@   exit calls(finaliseJob) == 1 && calls(monitorJobCancelled) == 1
+//@   // a periodic job keeps ticking: every run of the job function by this goroutine, whether started by the timer or by
+//@   // an early-run request, is followed by the release of the job's running mark before the next round begins (a mark
+//@   // left set makes every later tick and every later RunJob find the job "already running")
+//@   ghost nruns Int = 0
+//@   ghost nreleased Int = 0
+//@   at call jobFunc: ghost nruns = nruns + 1
+//@   at call Store: ghost nreleased = nreleased + (arg1 ? 0 : 1)
+//@   loop 1
+//@     invariant nruns == nreleased
 //@
 //@ func (*Service).CancelJobIfExists
 //@   requires s != nil && nolocks() && !isnil(scheduler.ErrNoSuchJob)
